@@ -28,6 +28,8 @@ QueryMatches(q) == LET p == AsPt(q.p) excl == ToSet(q.excl) IN
                                      /\ {pos'[n] : n \in InRangeN(p, excl)} = {AsPt(r) : r \in ToSet(q.refs)}
                                      /\ q.force_ok )
                      /\ AsPt(q.point_of.p) = pos'[q.point_of.n]
+                     \* pbc_min_dist(query point, get_point(n)) for every node: squared lattice distance, -1 = not positioned
+                     /\ \A n \in Nodes : q.d2[n + 1] = (IF pos'[n] = None THEN -1 ELSE D2(p, pos'[n]))
 TAdd == Ev.op = "add" /\ Add(Ev.n, AsPt(Ev.p), Ev.start)
 TRem == Ev.op = "remove" /\ RemoveNodes(ToSet(Ev.nodes))
 TCon == Ev.op = "concat" /\ Concatenate
@@ -36,6 +38,8 @@ TNext == /\ l <= Len(Traces[tid])
          /\ (TAdd \/ TRem \/ TCon)
          /\ PosMatches(Ev.post) /\ DefMatches(Ev.post) /\ TreeMatches(Ev.post)
          /\ QueryMatches(Ev.q)
+         \* QueryPure: the state projected after the queries is the state after the operation
+         /\ PosMatches(Ev.post_q) /\ DefMatches(Ev.post_q) /\ TreeMatches(Ev.post_q)
          /\ l' = l + 1 /\ tid' = tid /\ nops' = nops
 TSpec == TInit /\ [][TNext]_<<vars, tid, l>>
 Mark == (l = Len(Traces[tid]) + 1) => TLCSet(1, TLCGet(1) \cup {tid})
